@@ -682,7 +682,7 @@ var ruleZipRoot = &core.Rule{ID: "R19.6", Min: 4,
 	}}
 
 var ruleZipWalk = &core.Rule{ID: "R19.5", Min: 5,
-	Doc: "entry walker layout: the first name is read at offset 30, the compressed size at offset 18, the next header is searched after size+49 bytes, then a loop with constant trip count 4 (counted or range-over-int form) follows headers: the marker is looked for in at most six entries; every failure of the bounded cursor returns false",
+	Doc: "entry walker layout: the first name is read at offset 30, the compressed size at offset 18, the next header is searched after size+49 bytes, then a loop with constant trip count 4 (counted or range-over-int form) follows headers: the marker is looked for in at most six entries; every failure of the bounded cursor returns false; each marker test is reached on the success side of what precedes it (cursor moves succeeded, header search found something, no constant-false condition); the in-loop move is `header found + 30`, exists, and is made only where the search result is not -1",
 	Run: func(c *core.Ctx, s *core.Sink) {
 		tm := tree.Get(c)
 		zw, _ := zipWalker(c, tm)
